@@ -6,14 +6,14 @@ CONSTANTS
   MaxSeq = 3
   MaxFiles = 3
   MaxNextF = 6
-  TrackFiles = TRUE
-  MaxSnaps = 0
-  AllowRepair = FALSE
+  TrackFiles = FALSE
+  MaxSnaps = 1
+  AllowRepair = TRUE
   UseBoundary = TRUE
   DropTombstoneAlways = FALSE
 INVARIANT ReadLatest
+INVARIANT IterLatest
 INVARIANT LevelsWellFormed
-INVARIANT Recency
 INVARIANT NoLiveFileMissing
 INVARIANT EntriesAreWrites
 CONSTRAINT Bound
